@@ -207,11 +207,11 @@ func defaultStreamMapFilter[T any](key string, isr streamReader) (streamReader, 
 		if !ok_ {
 			return t, schema.ErrNoValue
 		}
-		vv, ok_ := v.(T)
+		vv, ok_ := assertType[T](v)
 		if !ok_ {
 			return t, fmt.Errorf(
-				"[defaultStreamMapFilter]fail, key[%s]'s value type[%s] isn't expected type[%s]",
-				key, reflect.TypeOf(v).String(),
+				"[defaultStreamMapFilter]fail, key[%s]'s value type[%T] isn't expected type[%s]",
+				key, v,
 				generic.TypeOf[T]().String())
 		}
 		return vv, nil
@@ -224,7 +224,7 @@ func defaultStreamMapFilter[T any](key string, isr streamReader) (streamReader, 
 
 func defaultStreamConverter[T any](reader streamReader) streamReader {
 	return packStreamReader(schema.StreamReaderWithConvert(reader.toAnyStreamReader(), func(v any) (T, error) {
-		vv, ok := v.(T)
+		vv, ok := assertType[T](v)
 		if !ok {
 			var t T
 			return t, fmt.Errorf("runtime type check fail, expected type: %T, actual type: %T", t, v)
@@ -233,8 +233,18 @@ func defaultStreamConverter[T any](reader streamReader) streamReader {
 	}))
 }
 
+// assertType is v.(T), except that a nil interface value is accepted for an interface type T
+// (nil is assignable to every interface type, but carries no dynamic type to assert on).
+func assertType[T any](v any) (T, bool) {
+	t, ok := v.(T)
+	if !ok && v == nil && generic.TypeOf[T]().Kind() == reflect.Interface {
+		return t, true
+	}
+	return t, ok
+}
+
 func defaultValueChecker[T any](v any) (any, error) {
-	nValue, ok := v.(T)
+	nValue, ok := assertType[T](v)
 	if !ok {
 		var t T
 		return nil, fmt.Errorf("runtime type check fail, expected type: %T, actual type: %T", t, v)
